@@ -2,6 +2,7 @@
 mod cfg;
 mod dse;
 mod eval;
+mod exec;
 
 use std::io::Read;
 
